@@ -4,7 +4,7 @@ set -e
 cd "$(dirname "$0")"
 mkdir -p bin evidence replays
 CXXF="$(llvm-config-14 --cxxflags | sed 's/-std=[^ ]*//; s/-fno-exceptions//')"
-g++ -O2 -std=c++17 $CXXF engine/symx.cpp -o bin/symx $(llvm-config-14 --ldflags) -lLLVM-14 -lz3 &
+g++ -O2 -std=c++17 $CXXF engine/symx.cpp -o bin/symx $(llvm-config-14 --ldflags) -lLLVM-14 -lz3 -pthread &
 if [ -f engine/ir2c.cpp ]; then g++ -O2 -std=c++17 $CXXF engine/ir2c.cpp -o bin/ir2c $(llvm-config-14 --ldflags) -lLLVM-14 & fi
 wait
 test -x bin/symx
